@@ -258,7 +258,7 @@ def run(rep, wd, tier, seed):
     rep.assumptions += ['TLC 1.8 evaluates the TLA+ text correctly',
                         'harness/drv.py render_blocks is the rendering of Blocks(d,k) (cross-checked: the trace '
                         'direction compares concrete bytes inside TLC without it)',
-                        'wrapped file object is io.BytesIO']
+                        'wrapped file objects: in-memory buffers, real files, pipe-like streams, gzip file objects (harness/drv.py)']
     model_check(rep, wd, tier)
     apalache_induction(rep, wd)
     stream_replay(rep, wd, tier, seed)
